@@ -32,7 +32,8 @@ STUBS = ["finder.set / platform.set / preprocessor.set / report.set -> order-per
          "hashlib/filecmp/open/Path in report -> in-memory (as in C16)",
          "matplotlib / scipy.cluster.hierarchy / scipy.spatial.distance -> recorders (what clustering() hands to them is compared)"]
 ASSUMPTIONS = ["real PYTHONHASHSEED / scandir variation across processes is modelled, not executed",
-               "IEEE rounding differences between summation orders are outside (exact reals)",
+               "IEEE rounding differences between summation orders: metrics/ proves over exact reals; metrics-float/ re-runs three tables that sit on "
+               "rounding boundaries under all modelled orders and compares to the last bit (concrete values, symbolic orders)",
                "once the permutation indices are decided the real code runs untraced on that leaf"]
 BOUNDS = {"quick": "find/: 6 scenarios x 6 platform orders x 6 enumeration orders x 6 set-iteration orders; summary/: all insertion orders of "
                    "4-key tables; clustering/: 24 insertion orders x 24 set-iteration orders of three 4-key tables (matplotlib/scipy replaced by recorders); dup/: 4 files, 24 enumeration orders x 6 set orders; metrics/: every insertion order of every 3-key "
@@ -340,6 +341,69 @@ def h_cluster(k: int, so: int) -> bool:
     return why is None
 
 
+# tables whose metric values sit on a rounding boundary: a different order of the floating-point additions changes the
+# last bit, and with it the two printed decimals (found by a seeding agent's search; exact reals - metrics/ - cannot see it)
+FLOAT_TABLES = [
+    [(("a",), 8), (("b",), 25), (("c",), 40), (("a", "b"), 0), (("b", "c"), 33), (("a", "c"), 30), (("a", "b", "c"), 24)],
+    [(("a",), 13), (("b",), 2), (("a", "c"), 51), (("b", "c"), 42), (("a", "b"), 52)],
+    [(("a",), 1), (("b",), 1), (("c",), 1), (("a", "b"), 3), (("d",), 7), (("c", "d"), 3)],
+]
+
+
+def h_float(k: int, so: int) -> bool:
+    """
+    pre: 0 <= k < 24 and 0 <= so < 24
+    post: _
+    """
+    import codebasin.report as report
+
+    kk = ss = None
+    for j in range(24):
+        if k == j:
+            kk = j
+        if so == j:
+            ss = j
+    STATS["compared"] += 1
+    if P.get("_twin"):
+        return False
+    why = None
+    with scen.untraced():
+        items = FLOAT_TABLES[P["table"]]
+
+        def run(order_idx, set_order):
+            n = len(items)
+            r = order_idx % n
+            seq = items[r:] + items[:r]
+            if (order_idx // n) % 2:
+                seq = seq[::-1]
+            sm = defaultdict(int)
+            for key, v in seq:
+                sm[frozenset(key)] = v
+            old = getattr(report, "set", None)
+            report.set = PermSet
+            ORDER[0] = set_order
+            try:
+                names = sorted({p for key, _v in items for p in key})
+                return (repr(report.divergence(sm)), repr(report.average_coverage(sm)), repr(report.coverage(sm)),
+                        [repr(report.distance(sm, a, b)) for a in names for b in names])
+            finally:
+                if old is None:
+                    del report.set
+                else:
+                    report.set = old
+
+        try:
+            base = run(0, 0)
+            got = run(kk, ss)
+            if got != base:
+                why = "metric values (to the last bit) depend on the iteration / insertion order: %s vs %s" % (got[:3], base[:3])
+        except Exception as e:
+            why = "exception " + repr(e)
+    if P.get("_replay"):
+        LAST.update(table=FLOAT_TABLES[P["table"]], insertion_order=kk, set_order=ss, why=why)
+    return why is None
+
+
 def h_dup(eo: int, so: int) -> bool:
     """
     pre: 0 <= eo < 24 and 0 <= so < 6
@@ -516,6 +580,9 @@ def obligations(tier, known):
     for i in (1, 2, 3):
         obs.append(Ob(id="clustering/table%d" % i, kind="ch", module=__name__, func="h_cluster", params=dict(table=i), timeout=400,
                       group="clustering"))
+    for i in range(len(FLOAT_TABLES)):
+        obs.append(Ob(id="metrics-float/table%d" % i, kind="ch", module=__name__, func="h_float", params=dict(table=i), timeout=300,
+                      group="metrics"))
     obs.append(Ob(id="dup/orders", kind="ch", module=__name__, func="h_dup", params={}, timeout=300, group="dup"))
     from vp.harness import c07
 
